@@ -21,7 +21,8 @@ for tc in t.iter('testcase'):
 print('suite: stable-not-passed =', len(stable-passed), sorted(stable-passed)[:3])
 PY
 cd /verif
-for s in ${SEEDS:-0}; do VERIF_REPO="$WT" VERIF_SEED=$s ./check "$PID" ${TIER:+--tier $TIER} 2>&1 | grep -v "^KNOWN" | tail -2; done
+mkdir -p /root/work/eval-evidence /root/work/eval-replays
+for s in ${SEEDS:-0}; do VERIF_EVIDENCE_DIR=/root/work/eval-evidence VERIF_REPLAY_DIR=/root/work/eval-replays VERIF_REPO="$WT" VERIF_SEED=$s ./check "$PID" ${TIER:+--tier $TIER} 2>&1 | grep -v "^KNOWN" | tail -2; done
 git -C "$WT" checkout -q -- . ; git -C "$WT" clean -fdq
 # restore the generated Lean files to the committed (clean-tree) baseline: the run above regenerated them from the mutant
 git -C /verif checkout -q -- $(git -C /verif ls-files 'lean/TIV/*/Generated.lean' 'lean/TIV/*/Translated.lean' 'lean/TIV/Common/GenCtl.lean') 2>/dev/null
